@@ -72,5 +72,6 @@ Definition run_base (tag : Z) (args : list sx) : option sx :=
   | 8 => Some (run_k8 args)
   | 30 => Some (run_k30 args)
   | 40 => Some (run_k40 args)
+  | 41 => Some (run_k41 args)
   | _ => None
   end.
